@@ -263,7 +263,8 @@ class PumpSweep(Part):
     budget = {QUICK: 300.0, THOROUGH: 900.0}
 
     SENTENCES = [
-        ("oc", "( 1.2.3 NAME ( 'a' 'b' ) DESC 'd e' OBSOLETE SUP ( t $ u ) STRUCTURAL MUST ( x $ y ) MAY z X-AB-c 'v' X-d ( 'p' 'q' ) )"),
+        ("oc", "( 1.2.3 NAME ( 'a' 'b' ) DESC 'd e' OBSOLETE SUP ( t $ u ) STRUCTURAL MUST ( x $ y ) MAY z X-AB-c 'v' X-d ( 'p' 'q' ) X-e ( ) )"),
+        ("dcr", "( 1.2.3 NAME ( ) AUX ( a ) X-A ( ) X-B ( 'b' ) X-C 'c' )"),
         ("at", "( 1.2.3 NAME 'n' DESC 'd' SUP s EQUALITY e ORDERING o SUBSTR u SYNTAX 1.2.3{64} SINGLE-VALUE COLLECTIVE NO-USER-MODIFICATION USAGE dSAOperation X-A 'v' )"),
         ("dcr", "( 1.2.3 NAME 'n' AUX ( a $ b ) MUST m MAY ( c $ d ) NOT n X-A 'v' )"),
         ("filter", "(&(cn;lang-en=a\\2ab*c)(|(1.2.3:dn:2.5.13.2:=v)(!(o>=1))))"),
@@ -281,8 +282,19 @@ class PumpSweep(Part):
                 k += 1
 
     def families(self, case: t.Any) -> t.List[t.Dict[str, t.Any]]:
-        return [{"entry": case["entry"], "base": case["base"], "pos": case["pos"], "plen": 1, "sym": sym, "suffix": suffix}
-                for sym in self.SYMBOLS for suffix in _SUFFIX]
+        base, pos = case["base"], case["pos"]
+        syms = list(self.SYMBOLS)
+        # token-level pumps: the next 1..4 space-separated tokens of the sentence itself (a whole list item, a whole
+        # extension, ...), when the position is at a token boundary
+        if pos < len(base) and (pos == 0 or base[pos] == " " or base[pos - 1] in " ("):
+            toks = base[pos:].split(" ")
+            lead = ""
+            for k in range(1, 6):
+                frag = " ".join(toks[:k])
+                if frag and frag not in syms and len(frag) <= 24:
+                    syms.append(frag if frag.startswith(" ") or pos == 0 else frag + " ")
+        return [{"entry": case["entry"], "base": base, "pos": pos, "plen": 1, "sym": sym, "suffix": suffix}
+                for sym in syms for suffix in _SUFFIX]
 
     def check(self, case: t.Any, ctx: Ctx) -> t.List[Violation]:
         fams = self.families(case)
